@@ -1401,3 +1401,89 @@ Proof.
     + destruct (Z.leb_spec 0 (o + -1)); [lia|]. cbn [andb].
       destruct (negb _); reflexivity.
 Qed.
+
+(* ---------- { } : lbuf_paragraphbeg ---------- *)
+Lemma is_blank_in b r : 0 <= r < blen b -> exists bl, is_blank_line b r = Some bl.
+Proof.
+  intro H. unfold is_blank_line. destruct (Z.ltb_spec r 0); [lia|]. destruct (Z.geb_spec r (blen b)); [lia|]. cbn [orb].
+  destruct (getl_in_range b r H) as (l & ->). eauto.
+Qed.
+Lemma is_blank_out b r : ~ (0 <= r < blen b) -> is_blank_line b r = None.
+Proof.
+  intro H. unfold is_blank_line. destruct (Z.ltb_spec r 0); [reflexivity|]. destruct (Z.geb_spec r (blen b)); [reflexivity|lia].
+Qed.
+
+Lemma para_skip_fwd b want : forall fuel r, 0 <= r <= blen b -> Z.of_nat fuel > blen b - r ->
+  let r' := para_skip fuel b 1 want r in
+  r <= r' <= blen b /\ (forall k, r <= k < r' -> is_blank_line b k = Some want) /\
+  (r' < blen b -> is_blank_line b r' = Some (negb want)).
+Proof.
+  induction fuel as [|f IH]; intros r Hr Hf; [lia|]. cbn [para_skip].
+  destruct (Z_lt_dec r (blen b)) as [Hl|Hl].
+  - destruct (is_blank_in b r ltac:(lia)) as (bl & E). rewrite E. destruct (Bool.eqb bl want) eqn:EB.
+    + apply eqb_prop in EB. subst bl. specialize (IH (r + 1) ltac:(lia) ltac:(lia)). cbv zeta in IH.
+      destruct IH as (H1 & H2 & H3). split; [lia|]. split; [|exact H3].
+      intros k Hk. destruct (Z.eq_dec k r) as [->|]; [exact E|apply H2; lia].
+    + split; [lia|]. split; [intros; lia|]. intros _. rewrite E. f_equal. destruct bl, want; try reflexivity; discriminate.
+  - rewrite is_blank_out by lia. split; [lia|]. split; [intros; lia|lia].
+Qed.
+
+Lemma para_skip_bwd b want : forall fuel r, -1 <= r < blen b -> Z.of_nat fuel > r + 1 ->
+  let r' := para_skip fuel b (-1) want r in
+  -1 <= r' <= r /\ (forall k, r' < k <= r -> is_blank_line b k = Some want) /\
+  (0 <= r' -> is_blank_line b r' = Some (negb want)).
+Proof.
+  induction fuel as [|f IH]; intros r Hr Hf; [lia|]. cbn [para_skip].
+  destruct (Z_le_dec 0 r) as [Hl|Hl].
+  - destruct (is_blank_in b r ltac:(lia)) as (bl & E). rewrite E. destruct (Bool.eqb bl want) eqn:EB.
+    + apply eqb_prop in EB. subst bl. specialize (IH (r + -1) ltac:(lia) ltac:(lia)). cbv zeta in IH.
+      destruct IH as (H1 & H2 & H3). split; [lia|]. split; [|exact H3].
+      intros k Hk. destruct (Z.eq_dec k r) as [->|]; [exact E|apply H2; lia].
+    + split; [lia|]. split; [intros; lia|]. intros _. rewrite E. f_equal. destruct bl, want; try reflexivity; discriminate.
+  - rewrite is_blank_out by lia. split; [lia|]. split; [intros; lia|lia].
+Qed.
+
+(* } : skip the blank lines under the cursor (rows r .. r1-1), then the paragraph (rows r1 .. r2-1); land on the
+   blank line r2 that ends it, or on the last line of the buffer *)
+Lemma paragraph_fwd b r : 0 <= r < blen b ->
+  exists r1 r2, lbuf_paragraphbeg b 1 r = (Z.min r2 (blen b - 1), 0) /\ r <= r1 <= r2 /\ r2 <= blen b /\
+    (forall k, r <= k < r1 -> is_blank_line b k = Some true) /\
+    (forall k, r1 <= k < r2 -> is_blank_line b k = Some false) /\
+    (r2 < blen b -> is_blank_line b r2 = Some true).
+Proof.
+  intro Hr. unfold lbuf_paragraphbeg. cbv zeta.
+  assert (Hfu : Z.of_nat (S (length b)) > blen b) by (unfold blen; lia).
+  pose proof (para_skip_fwd b true (S (length b)) r ltac:(lia) ltac:(lia)) as H1. cbv zeta in H1.
+  set (r1 := para_skip (S (length b)) b 1 true r) in *. destruct H1 as (A1 & A2 & A3).
+  pose proof (para_skip_fwd b false (S (length b)) r1 ltac:(lia) ltac:(lia)) as H2. cbv zeta in H2.
+  set (r2 := para_skip (S (length b)) b 1 false r1) in *. destruct H2 as (B1 & B2 & B3).
+  exists r1, r2. split; [f_equal; lia|]. split; [lia|]. split; [lia|]. split; [exact A2|]. split; [exact B2|exact B3].
+Qed.
+
+(* { : the same towards the start of the buffer (r2 = -1: no blank line above, lands on the first line) *)
+Lemma paragraph_bwd b r : 0 <= r < blen b ->
+  exists r1 r2, lbuf_paragraphbeg b (-1) r = (Z.max 0 r2, 0) /\ r2 <= r1 <= r /\ -1 <= r2 /\
+    (forall k, r1 < k <= r -> is_blank_line b k = Some true) /\
+    (forall k, r2 < k <= r1 -> is_blank_line b k = Some false) /\
+    (0 <= r2 -> is_blank_line b r2 = Some true).
+Proof.
+  intro Hr. unfold lbuf_paragraphbeg. cbv zeta.
+  assert (Hfu : Z.of_nat (S (length b)) > blen b) by (unfold blen; lia).
+  pose proof (para_skip_bwd b true (S (length b)) r ltac:(lia) ltac:(lia)) as H1. cbv zeta in H1.
+  set (r1 := para_skip (S (length b)) b (-1) true r) in *. destruct H1 as (A1 & A2 & A3).
+  pose proof (para_skip_bwd b false (S (length b)) r1 ltac:(lia) ltac:(lia)) as H2. cbv zeta in H2.
+  set (r2 := para_skip (S (length b)) b (-1) false r1) in *. destruct H2 as (B1 & B2 & B3).
+  exists r1, r2. split; [f_equal; lia|]. split; [lia|]. split; [lia|]. split; [exact A2|]. split; [exact B2|exact B3].
+Qed.
+
+(* what "blank line" means: the line is exactly its terminator *)
+Lemma is_blank_line_true b r : is_blank_line b r = Some true <-> getl b r = Some [[10%N]].
+Proof.
+  unfold is_blank_line. destruct (Z.ltb_spec r 0).
+  - cbn [orb]. unfold getl. destruct (Z.ltb_spec r 0); [|lia]. split; discriminate.
+  - destruct (Z.geb_spec r (blen b)); cbn [orb].
+    + split; [discriminate|]. intro E. apply getl_some in E. lia.
+    + destruct (getl b r) as [l|]; [|split; discriminate].
+      destruct l as [|c [|c' l']]; try (split; discriminate).
+      destruct (list_eq_dec N.eq_dec c [10%N]) as [->|Hne]; [tauto|]. split; [discriminate|]. intro E. inversion E. contradiction.
+Qed.
